@@ -27,8 +27,8 @@ type control struct {
 	mu      sync.Mutex
 	armed   bool // count stores of the current Put
 	stores  int
-	crashAt int  // panic before store #crashAt (1 = copy, 2..4 = index entry, 5 = meta); 6 = after the meta store
-	torn    bool // crashAt == 1: perform half of the copy first
+	crashAt int           // panic before store #crashAt (1 = copy, 2..4 = index entry, 5 = meta); 6 = after the meta store
+	torn    bool          // crashAt == 1: perform half of the copy first
 	gate    chan struct{} // if set, the next WriteBytes waits on it once (held appender)
 	held    chan struct{} // closed when an appender is waiting at the gate
 }
@@ -418,5 +418,74 @@ func main() {
 		out.Check(idx, fmt.Sprintf("check_hist %s %s %s", vh.List(oc), vh.NatList(apps), vh.List(gets)))
 	}
 	queue.VerifSetPageFactory(nil)
+
+	// ---------- the index page boundary (262144 entries per index page): close with the last appended sequence just
+	// before / in the last slot of / just after an index page, reopen, append, read everything back; compared with the
+	// abstract log directly (the model's index is a map, it has no pages) ----------
+	const perPage = 1024 * 256
+	counts := []int{perPage, perPage - 1, perPage + 1}
+	if cfg.Tier == "thorough" {
+		counts = append(counts, 2*perPage)
+	}
+	body := func(i int) []byte { return []byte(fmt.Sprintf("m%09d", i)) }
+	for bi, n := range counts {
+		dir := filepath.Join(root, fmt.Sprintf("b%d", bi))
+		idx := out.Case(map[string]interface{}{"kind": "index-page-boundary", "appended_before_reopen": n, "appended_after": 3}, true)
+		out.Count("index-page-boundary")
+		bad := func(what string) {
+			out.Violation(idx, "index-page-boundary", what, map[string]int{"appended_before_reopen": n})
+		}
+		q, err := queue.NewQueue(dir, 0)
+		if err != nil {
+			bad("open: " + err.Error())
+			continue
+		}
+		failed := false
+		for i := 0; i < n && !failed; i++ {
+			if err := q.Put(body(i)); err != nil {
+				bad(fmt.Sprintf("put %d: %v", i, err))
+				failed = true
+			}
+		}
+		q.Close()
+		if failed {
+			continue
+		}
+		q, err = queue.NewQueue(dir, 0)
+		if err != nil {
+			bad("reopen: " + err.Error())
+			continue
+		}
+		for i := n; i < n+3; i++ {
+			if err := q.Put(body(i)); err != nil {
+				bad(fmt.Sprintf("put %d after reopen: %v", i, err))
+				failed = true
+			}
+		}
+		for round := 0; round < 2 && !failed; round++ {
+			if got := q.AppendedSeq(); got != int64(n+2) {
+				bad(fmt.Sprintf("appended sequence %d after %d appends", got, n+3))
+				failed = true
+			}
+			for i := 0; i < n+3 && !failed; i++ {
+				b, err := q.Get(int64(i))
+				if err != nil || string(b) != string(body(i)) {
+					bad(fmt.Sprintf("Get(%d) = %q, %v; appended %q (reopened after %d messages)", i, b, err, body(i), n))
+					failed = true
+				}
+			}
+			if round == 0 && !failed {
+				q.Close()
+				if q, err = queue.NewQueue(dir, 0); err != nil {
+					bad("second reopen: " + err.Error())
+					failed = true
+				}
+			}
+		}
+		if q != nil {
+			q.Close()
+		}
+		_ = os.RemoveAll(dir)
+	}
 	out.Finish()
 }
